@@ -22,10 +22,15 @@ class OutFile(io.RawIOBase):
     def __init__(self, base, out0):
         self.base = base
         self.buf = bytearray(out0)
+        self.seeks = []
 
     def write(self, b):
         self.buf += bytes(b)
         return len(b)
+
+    def seek(self, off, whence=0):
+        self.seeks.append(off)
+        return off
 
     def tell(self):
         return self.base + len(self.buf)
@@ -55,7 +60,7 @@ class Gen:
 
     def int(self, name, lo=None, hi=None):
         ok, v = self._take(name)
-        if name in self.bounds and (not ok or not isinstance(v, int) or not (self.bounds[name][0] <= v <= self.bounds[name][1])):
+        if name in self.bounds and self.bounds[name][0] != "len" and (not ok or not isinstance(v, int) or not (self.bounds[name][0] <= v <= self.bounds[name][1])):
             lo, hi = self.bounds[name]
             v = self.rnd.choice([lo, hi, self.rnd.randint(lo, hi), self.rnd.randint(lo, min(hi, lo + 20))])
             ok = True
@@ -84,6 +89,8 @@ class Gen:
         if ok and isinstance(v, list) and all(isinstance(x, int) and 0 <= x < 256 for x in v):
             v = bytes(v)
         else:
+            if name in self.bounds and self.bounds[name][0] == "len":
+                n = self.bounds[name][1]
             ln = n if n is not None else self.rnd.choice([0, 1, 2, 3, 4, 8, 9, 12, 16, 17, self.rnd.randrange(0, self.size + 1)])
             style = self.rnd.random()
             if style < 0.3:
@@ -320,6 +327,9 @@ class ConcreteCtx:
     def out(self, f):
         return bytes(f.buf)
 
+    def seeks(self, f):
+        return list(f.seeks)
+
     def rest(self, f):
         return f.getvalue()[f.tell():]
 
@@ -366,6 +376,10 @@ class ConcreteCtx:
 
     def inst(self, k):
         pass
+
+    def lemma(self, label, f):
+        if f is not True and not f:
+            raise AssertionError("contract hint %s is false on a concrete run" % label)
 
     def seq_of(self, name, fn, n, elem="bool"):
         return [fn(k) for k in range(max(n, 0))]
